@@ -1,0 +1,16 @@
+//go:build verif
+// +build verif
+
+package ledgerstore
+
+// Verification hook (build tag "verif" only): named crash points inside the ledger's
+// persistence paths. The deterministic simulator installs CrashPointHook and unwinds with a
+// sentinel panic at the chosen point; without the tag crashPoint is an empty function.
+
+var CrashPointHook func(name string)
+
+func crashPoint(name string) {
+	if CrashPointHook != nil {
+		CrashPointHook(name)
+	}
+}
